@@ -463,6 +463,41 @@ func runC18(p *core.Prog, r *core.Report) {
 			}
 			r.Check(ok, "C18.R3", fmt.Sprintf("unmarshalVT/insert#%d", i+1), "each insertion m.Kv[k] = v is paired with dataSize += len(k)+len(v) in the same block, and dataSize is the returned size", "no matching size update for this insertion", p.Pos(mu.Pos()))
 		}
+		// and conversely: nothing else is counted.  Every uint64 addition that flows to the returned size sits in the
+		// block of an insertion into m.Kv (the other marshallers report keys + values only; a delete prefix, a tag or a
+		// length prefix counted here makes the size of a loaded store depend on the marshaller)
+		var stray []string
+		nAdds := 0
+		core.Instrs(fn, func(in ssa.Instruction) {
+			bo, isBo := in.(*ssa.BinOp)
+			if !isBo || bo.Op != token.ADD {
+				return
+			}
+			bt, isBasic := bo.Type().Underlying().(*types.Basic)
+			if !isBasic || bt.Kind() != types.Uint64 {
+				return
+			}
+			toRet := false
+			for _, s := range core.ForwardSinks(bo, 6) {
+				if s.IsRet && s.Ret == 0 {
+					toRet = true
+				}
+			}
+			if !toRet {
+				return
+			}
+			nAdds++
+			paired := false
+			for _, mu := range updates {
+				if mu.Block() == bo.Block() {
+					paired = true
+				}
+			}
+			if !paired {
+				stray = append(stray, p.Pos(bo.Pos()))
+			}
+		})
+		r.Check(len(stray) == 0 && nAdds > 0, "C18.R3", "unmarshalVT/only-entries-counted", "the size reported on load is made of the key and value lengths of the inserted entries only: every addition that reaches the returned size is in the block of an insertion into m.Kv", fmt.Sprintf("%d additions reach the size; stray: %v", nAdds, stray), p.Pos(fn.Pos()))
 	})
 	r.Guard("C18.R1", "unmarshalVT/entry-state", "per-entry decoding state", func() {
 		fn := p.Func(pkgMarsh, "unmarshalVT")
